@@ -62,12 +62,15 @@ Fixpoint dead_from (s : st) (i : Z) (ts : list tst) : list Z :=
 Inductive case :=
 | CCase (k lo hi : Z) (reqs : list req) (sched : list nat)   (* sched: the atomic steps actually taken, in order *)
         (crashed : bool) (thr : list (Z * Z)) (tab : list (Z * Z))
-        (used eps : list (list Z * bool)) (dead : list Z).
+        (used eps : list (list Z * bool)) (dead : list Z)
+        (accepts : Z)        (* connections returned by all members' Accept calls together *)
+(* a history through a whole frps: only what clients and users see *)
+| CSys (k lo hi : Z) (reqs : list req) (sched : list nat) (thr : list (Z * Z)).
 
 (* 0 = agrees *)
 Definition check_case (c : case) : Z :=
   match c with
-  | CCase kz lo hi reqs sched crashed thr tab used eps dead =>
+  | CCase kz lo hi reqs sched crashed thr tab used eps dead accepts =>
       let k := kind_of kz in
       match run k reqs sched (init lo hi reqs) with
       | Crashed => if crashed then 0 else 1
@@ -78,13 +81,24 @@ Definition check_case (c : case) : Z :=
           else if negb (forallb (fun p : list Z * bool => Bool.eqb (rmem (fst p) (s_used (c_s f))) (snd p)) used) then 5
           else if negb (forallb (fun p : list Z * bool => Bool.eqb (ep_open k (c_s f) (fst p)) (snd p)) eps) then 6
           else if negb (lz_eqb (match k with KHttp => [] | _ => dead_from (c_s f) 0 (c_t f) end) dead) then 7
+          (* every delivered connection was returned by exactly one Accept: no duplicates, no extras *)
+          else if negb (match k with KHttp => true
+                        | _ => count_if (fun t => match t with TConn (CTo _) => true | _ => false end) (c_t f) =? accepts end) then 8
           else 0
+      end
+  | CSys kz lo hi reqs sched thr =>
+      match run (kind_of kz) reqs sched (init lo hi reqs) with
+      | Crashed => 12
+      | Run f => if lzz_eqb (map tcode (c_t f)) thr then 0 else 13
       end
   end.
 
 (* ---- the property as a monitor on what was observed (used for counters) ---- *)
 Definition model_world (c : case) : world :=
-  match c with CCase kz lo hi reqs sched _ _ _ _ _ _ => run (kind_of kz) reqs sched (init lo hi reqs) end.
+  match c with
+  | CCase kz lo hi reqs sched _ _ _ _ _ _ _ => run (kind_of kz) reqs sched (init lo hi reqs)
+  | CSys kz lo hi reqs sched _ => run (kind_of kz) reqs sched (init lo hi reqs)
+  end.
 
 Definition case_crashes (c : case) : bool := match model_world c with Crashed => true | _ => false end.
 Definition case_lost (c : case) : bool := match model_world c with Run f => c_lost f | _ => false end.
@@ -92,7 +106,7 @@ Definition case_lost (c : case) : bool := match model_world c with Run f => c_lo
 (* endpoint without a group the controller knows (probed resources that are not held by the environment) *)
 Definition case_orphan (c : case) : bool :=
   match c with
-  | CCase kz _ _ _ _ _ _ _ used _ _ =>
+  | CCase kz _ _ _ _ _ _ _ used _ _ _ =>
       match model_world c with
       | Run f =>
           existsb (fun p : list Z * bool =>
@@ -100,19 +114,23 @@ Definition case_orphan (c : case) : bool :=
                      && negb (tab_has_live (kind_of kz) (c_s f) (fst p))) used
       | Crashed => false
       end
+  | CSys _ _ _ _ _ _ => false
   end.
 
 (* empty group object left in the table *)
 Definition case_shell (c : case) : bool :=
   match c with
-  | CCase _ _ _ _ _ _ _ tab _ _ _ => existsb (fun e : Z * Z => snd e =? 0) tab
+  | CCase _ _ _ _ _ _ _ tab _ _ _ _ => existsb (fun e : Z * Z => snd e =? 0) tab
+  | CSys _ _ _ _ _ _ => false
   end.
 
 Definition case_delivered (c : case) : Z :=
   match c with
-  | CCase _ _ _ _ _ _ thr _ _ _ _ => count_if (fun t : Z * Z => fst t =? 7) thr
+  | CCase _ _ _ _ _ _ thr _ _ _ _ _ => count_if (fun t : Z * Z => fst t =? 7) thr
+  | CSys _ _ _ _ _ thr => count_if (fun t : Z * Z => fst t =? 7) thr
   end.
 Definition case_refused_join (c : case) : Z :=
   match c with
-  | CCase _ _ _ _ _ _ thr _ _ _ _ => count_if (fun t : Z * Z => fst t =? 3) thr
+  | CCase _ _ _ _ _ _ thr _ _ _ _ _ => count_if (fun t : Z * Z => fst t =? 3) thr
+  | CSys _ _ _ _ _ thr => count_if (fun t : Z * Z => fst t =? 3) thr
   end.
